@@ -25,7 +25,8 @@ def strategy(tier):
   n = 14 if tier == 'thorough' else 10
   return st.one_of(st.fixed_dictionaries({'h': O.history('general', 1, n)}),
                    st.fixed_dictionaries({'h': O.history('schema', 1, n)}),
-                   st.fixed_dictionaries({'h': O.history('typechange', 1, n)}))
+                   st.fixed_dictionaries({'h': O.history('typechange', 1, n)}),
+                   st.fixed_dictionaries({'h': O.history('triggers', 2, n, max_ops=3)}))
 
 
 def run_case(case):
